@@ -19,6 +19,7 @@ INVARIANT StartConsistent
 INVARIANT NoSurvivorWeak
 INVARIANT StopCoversAll
 INVARIANT TelemetryCompleteFound
+INVARIANT TelemetryAsIs
 INVARIANT OnlyOwnSignalled
 PROPERTY KillAfterGrace
 CHECK_DEADLOCK FALSE
